@@ -227,6 +227,43 @@ func C04(c *core.Ctx) {
 				map[string]interface{}{"ret": rs[1].ret, "events": trunc(strings.Join(rs[1].events, ","), 300)})
 		}
 	}
+	// a ChunkEncoder of the caller's own (the interface is exported) whose Chunk() reports an empty id, or an id that
+	// is not in its encoding: no response acknowledges an empty id; success needs the id on the wire
+	{
+		body, _ := (&protocol.Message{Tag: "own", Timestamp: 3, Record: map[string]interface{}{"k": "v"}}).MarshalMsg(nil)
+		for _, sc := range scripts {
+			if sc.silent || sc.delay > 0 {
+				continue
+			}
+			o := mkSend(cf, ownEncoder{chunk: "", enc: body}, -1)
+			resp := sc.resp([]byte("x"))
+			if sc.name == "empty-ack" || sc.name == "matching" {
+				resp = ackBytes(nil)
+			}
+			o.resp = resp
+			rs := sendCase(c, "c04", cf, []cop{o}, "caller's own ChunkEncoder reporting an empty chunk id, peer="+sc.name)
+			c.Hist("own encoder, empty chunk, peer=" + sc.name + " -> " + rs[1].ret)
+			if rs[1].ret == "ok" {
+				c.Violation("judge-go", "c04-empty-chunk", "Send of a caller-implemented ChunkEncoder with an empty chunk id succeeded (peer="+sc.name+")", map[string]interface{}{"resp": hx(resp)})
+			}
+		}
+	}
+	// several sends on one connection with pauses: the deadline of each wait is armed for THAT wait -- an ack that
+	// arrives inside the timeout of its own send is accepted although the previous send's deadline has passed by then
+	for round := 0; round < c.N(1, 3); round++ {
+		cfl := ccfg{host: []byte("h"), ack: true, timeout: time.Second}
+		o1 := mkSend(cfl, sizedMessage(r, "message", 10, fmt.Sprintf("lazy-%d-a", round)), -1)
+		o1.resp = ackBytes(o1.chunk)
+		o2 := mkSend(cfl, sizedMessage(r, "message", 10, fmt.Sprintf("lazy-%d-b", round)), -1)
+		o2.resp, o2.delay = ackBytes(o2.chunk), 750*time.Millisecond
+		rs1 := runClientOps(cfl, []cop{{kind: "C", dialOK: true, wfault: -1}, o1, {kind: "T", wfault: -1, pause: 400 * time.Millisecond}, o2})
+		c.Eval()
+		c.Hist("second send 400 ms after the first, its ack 750 ms after its write, timeout 1 s")
+		if rs1[1].ret != "ok" || rs1[3].ret != "ok" {
+			c.Violation("judge-go", "c04-late-ack", fmt.Sprintf("two sends on one connection (timeout 1 s): the first returned %s; the second, started 400 ms later and acknowledged 750 ms after its own write, returned %s", rs1[1].ret, rs1[3].ret),
+				map[string]interface{}{"gap_ms": 400, "ack_delay_ms": 750, "timeout_ms": 1000})
+		}
+	}
 	// sequences of several sends on one connection
 	for t := 0; t < c.N(20, 600); t++ {
 		n := 2 + r.Intn(3)
@@ -279,4 +316,16 @@ func C04(c *core.Ctx) {
 	}
 	c.Extra("timeout_ms", timeout.Milliseconds())
 	c.Extra("slack_ms", slack.Milliseconds())
+}
+
+// ownEncoder: a ChunkEncoder implemented outside the library.
+type ownEncoder struct {
+	chunk string
+	enc   []byte
+}
+
+func (o ownEncoder) Chunk() (string, error) { return o.chunk, nil }
+func (o ownEncoder) EncodeMsg(w *msgp.Writer) error {
+	_, err := w.Write(o.enc)
+	return err
 }
